@@ -32,7 +32,7 @@ EXPLANATION = (
 ASSUMPTIONS = [
     "ff blocks commute given invisibility of <<= until _flip (follows from R-C07-effects)",
     "Python augmented-assignment semantics (x <<= v rebinds x to the return value of __ilshift__)",
-    "helper functions called from update_ff blocks are not analysed for <<= (existing limitation of the DSL)",
+    "operator checks (<<= vs @=) are not applied by pymtl3 inside helper functions; only the double-buffer marking of their writes is checked",
 ]
 
 
@@ -459,8 +459,36 @@ def rule_dbuf_set(repo):
         else:
             r.bad(m, 'ComponentLevel2._elaborate_read_write_func', 'extract_obj_from_names(..., update_ff=...)',
                   "write sets of update_ff blocks are not analysed with update_ff=True", top.lineno)
+    # writes hidden in helper functions (@s.func) called from an update_ff block: the fold in _collect_vars.dfs must mark them too
+    cv = l2.get_func('ComponentLevel2._collect_vars')
+    dfs = [x for x in ast.walk(cv) if isinstance(x, ast.FunctionDef) and x.name == 'dfs']
+    if len(dfs) != 1:
+        raise AnalysisError("anchor vanished: ComponentLevel2._collect_vars.dfs")
+    helper = [(m, n) for m, n in trues if m.rel == L2 and any(x is n for x in ast.walk(dfs[0]))]
+    cons = "signals written by a function called from an update_ff block are marked"
+    FNH = 'ComponentLevel2._collect_vars.dfs'
+    if len(helper) != 1:
+        r.bad(l2, FNH, cons, "a `<<=` inside an @s.func helper called from an update_ff block is never committed: the written signal is "
+              "not marked for double buffering, so it gets no _flip()", dfs[0].lineno)
+    else:
+        m, n = helper[0]
+        gs = guards_of(n, stop=dfs[0])
+        loops = [g for g in gs if g.kind == 'loop']
+        u = dfs[0].args.args[0].arg
+        ok_loop = loops and norm(loops[0].node.iter) == f"m._dsl.func_writes[{u}]"
+        ok_ff = any(g.kind == 'if' and g.polarity and norm(g.test) in ('blk in m._dsl.update_ff', 'blk in s._dsl.all_update_ff') for g in gs)
+        others = [g for g in gs if g.kind in ('if', 'exit') and norm(g.test) not in ('blk in m._dsl.update_ff', 'blk in s._dsl.all_update_ff',
+                                                                                   f"{u} not in m._dsl.func_reads")]
+        xs = norm(n.targets[0].value.value)
+        allowed = {f"isinstance({xs}, Signal) and {xs}.is_top_level_signal()", f"isinstance({xs}, Signal)", f"{xs}.is_top_level_signal()"}
+        extra = [g for g in others if not (g.polarity and norm(g.test) in allowed)]
+        if ok_loop and ok_ff and not extra:
+            r.ok(l2, FNH, cons)
+        else:
+            r.bad(l2, FNH, cons, "the marking of helper-function writes does not cover every top-level signal written by a function reachable "
+                  "from an update_ff block", n.lineno)
     for m, n in trues:
-        if (m, n) not in mine:
+        if (m, n) not in mine and (m, n) not in helper:
             r.ok(m, qualname(n), norm(n), nontrivial=False, note="additional marker")
     r.require_floor(2)
     return r
@@ -781,6 +809,8 @@ def _m(name, file, old, new, rule=None, count=1):
 
 
 MUTANTS = [
+    _m('D19-helper-writes-not-marked', L2, "            if blk in m._dsl.update_ff:\n              for x in m._dsl.func_writes[u]:\n                if isinstance( x, Signal ) and x.is_top_level_signal():\n                  x._dsl.needs_double_buffer = True\n", "", 'R-C07-dbuf-set'),
+    _m('helper-marking-only-outports', L2, "                if isinstance( x, Signal ) and x.is_top_level_signal():\n                  x._dsl.needs_double_buffer = True", "                if isinstance( x, OutPort ) and x.is_top_level_signal():\n                  x._dsl.needs_double_buffer = True", 'R-C07-dbuf-set'),
     _m('ilshift-writes-uint', BITS, "      self._next = v.to_bits()._uint\n", "      self._next = self._uint = v.to_bits()._uint\n", 'R-C07-effects'),
     _m('ilshift-int-writes-uint', BITS, "      self._next = v & up", "      self._uint = v & up", 'R-C07-effects'),
     _m('flip-noop', BITS, "    self._uint = self._next\n", "    self._uint = self._uint\n", 'R-C07-effects'),
@@ -800,8 +830,8 @@ MUTANTS = [
     _m('reset-two-edges', PREP, "      ff()\n      # cycle 1\n      up()\n", "      ff()\n      # cycle 1\n", 'R-tick-order'),
     _m('tick-skips-first', TICK, "      for blk in schedule:", "      for blk in schedule[1:]:", 'R-tick-order'),
     _m('unroll-wrong-index', UNROLL, '[ f"_{idx}_{x.__name__}=schedule[{idx}]"', '[ f"_{idx}_{x.__name__}=schedule[{idx}-1]"', 'R-tick-order'),
-    _m('dbuf-not-set', L2, "              x._dsl.needs_double_buffer = True\n", "              pass\n", 'R-C07-dbuf-set'),
-    _m('dbuf-set-filtered', L2, "              x._dsl.needs_double_buffer = True\n", "              if x.is_output_value_port(): continue\n              x._dsl.needs_double_buffer = True\n", 'R-C07-dbuf-set'),
+    _m('dbuf-not-set', L2, "                raise UpdateFFNonTopLevelSignalError( s, func, nodelist[0].lineno )\n\n              x._dsl.needs_double_buffer = True\n", "                raise UpdateFFNonTopLevelSignalError( s, func, nodelist[0].lineno )\n\n              pass\n", 'R-C07-dbuf-set'),
+    _m('dbuf-set-filtered', L2, "                raise UpdateFFNonTopLevelSignalError( s, func, nodelist[0].lineno )\n\n              x._dsl.needs_double_buffer = True\n", "                raise UpdateFFNonTopLevelSignalError( s, func, nodelist[0].lineno )\n\n              if x.is_output_value_port(): continue\n              x._dsl.needs_double_buffer = True\n", 'R-C07-dbuf-set'),
     _m('dbuf-cleared', SIMPLE, "      if x._dsl.needs_double_buffer:\n        hostobj_signals[ x.get_host_component() ].append( x )", "      if x._dsl.needs_double_buffer:\n        hostobj_signals[ x.get_host_component() ].append( x )\n        x._dsl.needs_double_buffer = False", 'R-C07-dbuf-set'),
     _m('flip-collect-filtered', SIMPLE, "      if x._dsl.needs_double_buffer:\n", "      if x._dsl.needs_double_buffer and not x.is_input_value_port():\n", 'R-C07-flip-cover'),
     _m('flip-regroup-drops', SIMPLE, "        if len(y) > 1:\n          next_hostobj_signals[x].extend( y )", "        if len(y) > 1:\n          next_hostobj_signals[x].append( y[0] )", 'R-C07-flip-cover'),
